@@ -23,7 +23,7 @@ def run(tier, out):
         ns = efx.load()
         base = seed_from_env() * 100000
         n_models = 30 if tier == "quick" else 600
-        events, per_driver = [], {}
+        events, per_driver, n_live = [], {}, 0
         tid = 0
         for seed in range(base, base + n_models):
             rng = random.Random(seed)
@@ -32,7 +32,13 @@ def run(tier, out):
             for drv in numcheck.DRIVERS:
                 k = rng.choice([2, 3])
                 tid += 1
-                r = numcheck.pair_event(ns, tid, 0, model, I, drv, k, rng)
+                # one pair in three is observed on a single live system edited in place (server types switched by edits
+                # first, then the driver multiplied by edits); the others on two fresh builds
+                live_pair = (seed + numcheck.DRIVERS.index(drv)) % 3 == 0
+                try:
+                    r = (numcheck.pair_event_live if live_pair else numcheck.pair_event)(ns, tid, 0, model, I, drv, k, rng)
+                except lattice.OffLattice:
+                    continue
                 if r is None:
                     continue
                 pair, ev2 = r
@@ -40,6 +46,7 @@ def run(tier, out):
                 ev2["seed"], ev2["tid"], ev2["seq"] = seed, tid, 1
                 events += [pair, ev2]
                 per_driver[drv] = per_driver.get(drv, 0) + 1
+                n_live += int(live_pair)
                 out.nontrivial.add((seed, drv, k))
         fails, notes, res = numcheck.validate(wd, events)
         out.add_tlc(res, "Trace_Numeric: driver pairs")
@@ -51,7 +58,7 @@ def run(tier, out):
         for e in pairs[:3]:
             out.sample({"seed": e["seed"], "driver": e["driver"], "k": e["k"], "changed_inputs": e["changed_inputs"]})
         out.extra.update({"rule": "a case = a pair of real systems differing by one driver x k; distinct by (seed, driver, k)",
-                          "pairs_per_driver": per_driver, "pairs_without_any_driven_observation": vac})
+                          "pairs_per_driver": per_driver, "pairs_observed_on_one_live_system": n_live, "pairs_without_any_driven_observation": vac})
         out.assumptions += ["drivers are multiplied on lattice inputs so that both systems stay exactly comparable; "
                             "k in {2, 3}"]
         if len(per_driver) < len(numcheck.DRIVERS):
